@@ -205,8 +205,24 @@ func (a *array) rtype() reflect.Type  { return a.t.Type }
 
 // malloc is standard Go allocation of a block of memory - the plus side is that Go manages the memory
 func malloc(t Dtype, length int) []byte {
+	if hasPointers(t) {
+		// the elements (strings, pointers...) must be visible to the garbage collector: allocate typed memory
+		return storage.AsByteSlice(reflect.MakeSlice(reflect.SliceOf(t.Type), length, length).Interface())
+	}
 	size := int(calcMemSize(t, length))
 	return make([]byte, size)
+}
+
+// hasPointers reports whether values of the Dtype contain pointers that the garbage collector has to follow
+func hasPointers(t Dtype) bool {
+	switch t.Kind() {
+	case reflect.Bool,
+		reflect.Int, reflect.Int8, reflect.Int16, reflect.Int32, reflect.Int64,
+		reflect.Uint, reflect.Uint8, reflect.Uint16, reflect.Uint32, reflect.Uint64, reflect.Uintptr,
+		reflect.Float32, reflect.Float64, reflect.Complex64, reflect.Complex128:
+		return false
+	}
+	return true
 }
 
 // calcMemSize calulates the memory size of an array (given its size)
